@@ -41,6 +41,21 @@ CHECKS = {
     "C08": ("model_checking", "DESIGN.md 5/C08", DEV_TECH + "; configurations rendered as TOML and parsed by the real config.ParseData",
             DEV_NOTE, "On/Off/Exclusive/OnlyConfigured/Pinned judged by TLC on tours over all position sequences of hat and stick "
             "axes (signed, unsigned, flipped, without negative note) with octave/channel actions between, and seeded random sequences."),
+    "C11": ("model_checking", "DESIGN.md 5/C11",
+            "TLA+ spec of the name<->number bijection (spec/NoteNames.tla, model-level ASSUMEs checked by TLC); the real StringToNote is "
+            "run on every string of the exhaustive space and the logged cases are judged by TLC (spec/CaseTrace.tla)",
+            "trusted: TLC; strings the code rejects and that are not valid spellings are only counted (rejection is the specified result)",
+            "Exhaustive over all strings of length <= 3 (quick) / <= 4 (thorough) over letters, digits, #, -, space, plus seeded longer strings and edits of valid names; all 128 numbers."),
+    "C12": ("model_checking", "DESIGN.md 5/C12",
+            "TLA+ spec of the lookup chain (spec/Loader.tla); hidi-config trees built on disk for every presence combination, the real "
+            "LoadDeviceConfigs + FindConfig run in them, results judged by TLC (spec/CaseTrace.tla)",
+            "trusted: TLC, the marker (defaults.octave) identifying the chosen file. Unreadable directories cannot be produced as root.",
+            "quick: all 256 presence combinations x 4 device types + seeded junk/missing-directory cases; thorough: full product with 6 junk kinds and 7 missing-directory sets (43k trees)."),
+    "C20": ("model_checking", "DESIGN.md 5/C20",
+            "TLA+ spec of grouping and type rule (spec/Discovery.tla); the real input.Normalize run on every sequence of synthetic "
+            "handlers (every multiset in every order), each call judged by TLC (spec/CaseTrace.tla)",
+            "trusted: TLC; handler classes are taken as the code reports them (the statement does not define joystick-like)",
+            "Exhaustive for <= 3 (quick) / <= 4 (thorough) handlers over 9 capability classes x 3 locations in every order; seeded multisets of up to 12 handlers in 3 orders."),
     "C13": ("model_checking", "DESIGN.md 5/C13", DEV_TECH, DEV_NOTE,
             "Panic output and neutrality judged by TLC with panic taken in every state of the bounded models."),
     "C14": ("model_checking", "DESIGN.md 5/C14", DEV_TECH, DEV_NOTE,
@@ -69,6 +84,9 @@ def main():
             {"name": "device-engine", "path": "spec/Device.tla spec/DeviceSys.tla spec/DeviceTrace.tla spec/MC_device.tla",
              "serves_properties": [i for i in ids if i in CHECKS and i in ("C01", "C02", "C03", "C04", "C05", "C06", "C07", "C08", "C13", "C14")],
              "kind_free_text": "TLC exhaustive model checking + tours + trace validation of the per-device engine"},
+            {"name": "case-oracle", "path": "spec/CaseTrace.tla spec/NoteNames.tla spec/Loader.tla spec/Discovery.tla spec/ConfigFile.tla",
+             "serves_properties": [i for i in ids if i in CHECKS and i in ("C09", "C10", "C11", "C12", "C20")],
+             "kind_free_text": "specification as enumerated oracle: the real function is run on generated cases, TLC judges every logged case"},
         ],
         "checks": [],
         "not_applicable": [],
@@ -83,7 +101,7 @@ def main():
                 "thorough_cmd": "./check %s thorough" % i,
                 "evidence_file": "evidence/%s.json" % i,
                 "replay_cmd_template": "./check %s --replay {path}" % i,
-                "engine": "device-engine",
+                "engine": "device-engine" if i in ("C01", "C02", "C03", "C04", "C05", "C06", "C07", "C08", "C13", "C14") else "case-oracle",
                 "level_claimed": {"category": level, "text": text, "design_ref": ref},
                 "level_note": note,
                 "technique": tech,
